@@ -182,7 +182,8 @@ def prime_order_toys(max_p=23):
     for (p, a, b) in [(p, a, b) for p in (11, 13, 17, 19, 23) if p <= max_p for a in range(p) for b in range(p) if EC.nonsingular(p, a, b)]:
         pts = EC.points(p, a, b)
         n = len(pts) + 1
-        if n >= 7 and EC._isprime(n) and not any(q[0] == p for q in out):
+        # per field: one curve with n < p (x(kG) >= n occurs) and one with n > p, when they exist
+        if n >= 7 and EC._isprime(n) and not any(q[0] == p and (q[4] < p) == (n < p) for q in out):
             out.append((p, a, b, pts[0], n))
     return out
 
@@ -284,7 +285,7 @@ def _sign_positional(self, args):
 
 
 def _sign_domain(tier, seed):
-    for c in prime_order_toys(13 if tier == "quick" else 23):
+    for c in prime_order_toys(23):
         p, a, b, G, n = c
         for d in range(1, n):
             for k in range(1, n):
